@@ -170,7 +170,17 @@ func read_external(rdr *tokenReader, placeholderValues *HashMap, ns EnvType) (Ma
 	}
 	args := lst.(List).Val
 	// cursor := lst.(List).Cursor
-	symbol := Symbol{Val: "new-" + args[0].(Symbol).Val}
+	if len(args) == 0 {
+		return nil, lisperror.NewLispError(errors.New("constructor name expected after '«'"), lst)
+	}
+	name, ok := args[0].(Symbol)
+	if !ok {
+		return nil, lisperror.NewLispError(fmt.Errorf("constructor name must be a symbol (was of type %T)", args[0]), lst)
+	}
+	if ns == nil {
+		return nil, lisperror.NewLispError(errors.New("constructors require an environment"), lst)
+	}
+	symbol := Symbol{Val: "new-" + name.Val}
 	constructor, err := ns.Get(symbol)
 	if err != nil {
 		return nil, err
